@@ -30,16 +30,32 @@ package keeper
 //@   ensures [C11.sched.add] has(ExpiredData, expiredAt) && ExpiredData[expiredAt].Height == expiredAt && contains(ExpiredData[expiredAt].Data, dataId)
 //@   ensures [C11.sched.keep] forall x string :: old(has(ExpiredData, expiredAt)) && contains(old(ExpiredData[expiredAt].Data), x) ==> contains(ExpiredData[expiredAt].Data, x)
 //@   ensures [C11.sched.only] forall x string :: contains(ExpiredData[expiredAt].Data, x) ==> x == dataId || (old(has(ExpiredData, expiredAt)) && contains(old(ExpiredData[expiredAt].Data), x))
+//@   ensures [C11.sched.append] old(has(ExpiredData, expiredAt)) ==> len(ExpiredData[expiredAt].Data) == len(old(ExpiredData[expiredAt].Data)) + 1
+//@       && ExpiredData[expiredAt].Data[len(old(ExpiredData[expiredAt].Data))] == dataId
+//@       && (forall k int :: 0 <= k && k < len(old(ExpiredData[expiredAt].Data)) ==> ExpiredData[expiredAt].Data[k] == old(ExpiredData[expiredAt].Data)[k])
+//@   ensures [C11.sched.first] !old(has(ExpiredData, expiredAt)) ==> len(ExpiredData[expiredAt].Data) == 1 && ExpiredData[expiredAt].Data[0] == dataId
 
 // unschedule: the loop removes elements in place while ranging over the same backing array, which is outside the verified
 // subset (slices are values there). Contract assumed; validated by exhaustive execution of the real function for all lists
 // up to length 6 over a 3-letter alphabet (bounded stand-in, see /verif/replay/tests/B_removeDataExpireBlock_test.go).
+// rmpos(list, id): the position of id in list (meaning given only by the assumed contract below)
+//@ ghost rmpos(Slice_Str, string) int
 //@ func (Keeper) removeDataExpireBlock(ctx, dataId, expiredAt)
 //@   trusted bounded: exhaustive lists up to length 6; requires the id to occur at most once (two occurrences make the real code panic or skip)
 //@   requires has(ExpiredData, expiredAt) ==> ExpiredData[expiredAt].Height == expiredAt
 //@   requires [C11.sched.once] has(ExpiredData, expiredAt) ==> forall i int, j int :: 0 <= i && i < j && j < len(ExpiredData[expiredAt].Data) ==> !(ExpiredData[expiredAt].Data[i] == dataId && ExpiredData[expiredAt].Data[j] == dataId)
 //@   modifies ExpiredData[expiredAt]
 //@   ensures [C11.sched.removed] has(ExpiredData, expiredAt) ==> !contains(ExpiredData[expiredAt].Data, dataId) && ExpiredData[expiredAt].Height == expiredAt && old(has(ExpiredData, expiredAt))
+//@   ensures [C11.sched.exact] old(has(ExpiredData, expiredAt)) && contains(old(ExpiredData[expiredAt].Data), dataId) ==>
+//@       0 <= rmpos(old(ExpiredData[expiredAt].Data), dataId) && rmpos(old(ExpiredData[expiredAt].Data), dataId) < len(old(ExpiredData[expiredAt].Data))
+//@       && old(ExpiredData[expiredAt].Data)[rmpos(old(ExpiredData[expiredAt].Data), dataId)] == dataId
+//@       && (has(ExpiredData, expiredAt) <==> len(old(ExpiredData[expiredAt].Data)) > 1)
+//@       && (has(ExpiredData, expiredAt) ==> len(ExpiredData[expiredAt].Data) == len(old(ExpiredData[expiredAt].Data)) - 1
+//@             && (forall k int :: 0 <= k && k < len(ExpiredData[expiredAt].Data) ==> ExpiredData[expiredAt].Data[k] ==
+//@                   (k < rmpos(old(ExpiredData[expiredAt].Data), dataId) ? old(ExpiredData[expiredAt].Data)[k] : old(ExpiredData[expiredAt].Data)[k + 1])))
+//@   ensures [C11.sched.same] old(has(ExpiredData, expiredAt)) && !contains(old(ExpiredData[expiredAt].Data), dataId) && len(old(ExpiredData[expiredAt].Data)) > 0 ==>
+//@       has(ExpiredData, expiredAt) && ExpiredData[expiredAt] == old(ExpiredData[expiredAt])
+//@   ensures [C11.sched.absent] !old(has(ExpiredData, expiredAt)) ==> !has(ExpiredData, expiredAt)
 //@   ensures [C11.sched.rest] forall x string :: x != dataId ==> ((has(ExpiredData, expiredAt) && contains(ExpiredData[expiredAt].Data, x)) <==> (old(has(ExpiredData, expiredAt)) && contains(old(ExpiredData[expiredAt].Data), x)))
 
 // ResetMetaDuration recomputes the model's lifetime from its completed shards and reschedules its deletion
@@ -121,12 +137,39 @@ package keeper
 //@   ensures [C09.deletemeta] err == nil ==> old(has(Metadata, dataId)) && !has(Metadata, dataId) && !has(Model, sprintf("%s-%s-%s", old(Metadata[dataId].Owner), old(Metadata[dataId].Alias), old(Metadata[dataId].GroupId)))
 //@   ensures [C09.deletemeta.err] err != nil ==> !old(has(Metadata, dataId)) && !has(Metadata, dataId)
 
+// ExtendMetaDuration: the model's deletion is moved to expiredAt if that is later than its current deletion height
+//@ func (Keeper) ExtendMetaDuration(ctx, dataId, expiredAt)
+//@   requires has(Metadata, dataId) && Metadata[dataId].CreatedAt + Metadata[dataId].Duration <= MaxUint64
+//@   requires [C11.extend.height] expiredAt >= Metadata[dataId].CreatedAt
+//@   requires [C11.sched.once] has(Metadata, dataId) && has(ExpiredData, u64(Metadata[dataId].CreatedAt + Metadata[dataId].Duration)) ==>
+//@       forall i int, j int :: 0 <= i && i < j && j < len(ExpiredData[u64(Metadata[dataId].CreatedAt + Metadata[dataId].Duration)].Data)
+//@         ==> !(ExpiredData[u64(Metadata[dataId].CreatedAt + Metadata[dataId].Duration)].Data[i] == dataId && ExpiredData[u64(Metadata[dataId].CreatedAt + Metadata[dataId].Duration)].Data[j] == dataId)
+//@   modifies Metadata[dataId], ExpiredData[u64(Metadata[dataId].CreatedAt + Metadata[dataId].Duration)], ExpiredData[expiredAt]
+//@   ensures [C11.extend.later] old(has(Metadata, dataId)) && expiredAt > old(Metadata[dataId].CreatedAt + Metadata[dataId].Duration) ==>
+//@       has(Metadata, dataId) && Metadata[dataId].CreatedAt + Metadata[dataId].Duration == expiredAt && Metadata[dataId].CreatedAt == old(Metadata[dataId].CreatedAt)
+//@       && has(ExpiredData, expiredAt) && contains(ExpiredData[expiredAt].Data, dataId)
+//@       && (has(ExpiredData, old(Metadata[dataId].CreatedAt + Metadata[dataId].Duration)) ==> !contains(ExpiredData[old(Metadata[dataId].CreatedAt + Metadata[dataId].Duration)].Data, dataId))
+//@   ensures [C11.extend.notearlier] old(has(Metadata, dataId)) && expiredAt <= old(Metadata[dataId].CreatedAt + Metadata[dataId].Duration) ==>
+//@       Metadata[dataId] == old(Metadata[dataId]) && has(Metadata, dataId)
+//@       && (forall h int :: 0 <= h && h <= MaxUint64 ==> ExpiredData[h] == old(ExpiredData[h]) && (has(ExpiredData, h) <==> old(has(ExpiredData, h))))
+//@   ensures [C11.extend.inv.once] old(forall c string, h int, i int, j int :: 0 <= h && h <= MaxUint64 && has(ExpiredData, h) && 0 <= i && i < j && j < len(ExpiredData[h].Data) ==> !(ExpiredData[h].Data[i] == c && ExpiredData[h].Data[j] == c))
+//@       && old(forall h int :: 0 <= h && h <= MaxUint64 && has(ExpiredData, h) && contains(ExpiredData[h].Data, dataId) ==> h == u64(Metadata[dataId].CreatedAt + Metadata[dataId].Duration))
+//@       ==> forall c string, h int, i int, j int :: 0 <= h && h <= MaxUint64 && has(ExpiredData, h) && 0 <= i && i < j && j < len(ExpiredData[h].Data) ==> !(ExpiredData[h].Data[i] == c && ExpiredData[h].Data[j] == c)
+//@   ensures [C11.extend.inv.unique] old(forall c string, h int :: has(Metadata, c) && 0 <= h && h <= MaxUint64 && has(ExpiredData, h) && contains(ExpiredData[h].Data, c) ==> h == u64(Metadata[c].CreatedAt + Metadata[c].Duration))
+//@       ==> forall c string, h int :: has(Metadata, c) && 0 <= h && h <= MaxUint64 && has(ExpiredData, h) && contains(ExpiredData[h].Data, c) ==> h == u64(Metadata[c].CreatedAt + Metadata[c].Duration)
+//@   ensures [C09.extend.fields] old(has(Metadata, dataId)) ==> has(Metadata, dataId) && Metadata[dataId].Owner == old(Metadata[dataId].Owner) && Metadata[dataId].DataId == dataId
+//@       && Metadata[dataId].Commits == old(Metadata[dataId].Commits) && Metadata[dataId].Commit == old(Metadata[dataId].Commit) && Metadata[dataId].Orders == old(Metadata[dataId].Orders)
+//@       && Metadata[dataId].OrderId == old(Metadata[dataId].OrderId) && Metadata[dataId].Status == old(Metadata[dataId].Status) && Metadata[dataId].ReadonlyDids == old(Metadata[dataId].ReadonlyDids)
+//@       && Metadata[dataId].ReadwriteDids == old(Metadata[dataId].ReadwriteDids) && Metadata[dataId].CreatedAt == old(Metadata[dataId].CreatedAt)
+//@       && Metadata[dataId].Alias == old(Metadata[dataId].Alias) && Metadata[dataId].GroupId == old(Metadata[dataId].GroupId)
+//@       && Metadata[dataId].CreatedAt + Metadata[dataId].Duration <= MaxUint64 && Metadata[dataId].Duration >= old(Metadata[dataId].Duration)
+
 // UpdateMeta applies a completed order to its data model: new version (1), force-push replacing the latest version (2), renewal (3).
 //@ func (Keeper) UpdateMeta(ctx, order) (err)
-//@   requires forall c string :: has(PledgeDebt, c) ==> PledgeDebt[c].Debt.Amount >= 0
-//@   requires forall i int :: 0 <= i && i <= MaxUint64 && has(Shard, i) ==> Shard[i].Pledge.Amount >= 0
-//@   requires forall c string :: has(Metadata, c) ==> Metadata[c].CreatedAt + Metadata[c].Duration <= MaxUint64
-//@   requires [C11.sched.once] has(Metadata, order.DataId) && has(ExpiredData, u64(Metadata[order.DataId].CreatedAt + Metadata[order.DataId].Duration)) ==>
+//@   requires order.Operation == 2 ==> forall c string :: has(PledgeDebt, c) ==> PledgeDebt[c].Debt.Amount >= 0
+//@   requires order.Operation == 2 ==> forall i int :: 0 <= i && i <= MaxUint64 && has(Shard, i) ==> Shard[i].Pledge.Amount >= 0
+//@   requires order.Operation == 2 ==> forall c string :: has(Metadata, c) ==> Metadata[c].CreatedAt + Metadata[c].Duration <= MaxUint64
+//@   requires [C11.sched.once] order.Operation == 2 && has(Metadata, order.DataId) && has(ExpiredData, u64(Metadata[order.DataId].CreatedAt + Metadata[order.DataId].Duration)) ==>
 //@       forall i int, j int :: 0 <= i && i < j && j < len(ExpiredData[u64(Metadata[order.DataId].CreatedAt + Metadata[order.DataId].Duration)].Data)
 //@         ==> !(ExpiredData[u64(Metadata[order.DataId].CreatedAt + Metadata[order.DataId].Duration)].Data[i] == order.DataId && ExpiredData[u64(Metadata[order.DataId].CreatedAt + Metadata[order.DataId].Duration)].Data[j] == order.DataId)
 //@   modifies Metadata[order.DataId], Worker, Pledge, PledgeDebt, Bank, Order, DidBalances, Shard, ExpiredData
@@ -143,6 +186,17 @@ package keeper
 //@       && Metadata[order.DataId].Commits[len(old(Metadata[order.DataId].Commits)) - 1] == Version(order.Commit, H)
 //@       && (forall j int :: 0 <= j && j < len(old(Metadata[order.DataId].Commits)) - 1 ==> Metadata[order.DataId].Commits[j] == old(Metadata[order.DataId].Commits)[j])
 //@   ensures [C16.updatemeta.renew] err == nil && order.Operation == 3 ==> Metadata[order.DataId].Commits == old(Metadata[order.DataId].Commits) && Metadata[order.DataId].Commit == old(Metadata[order.DataId].Commit)
+//@       && Metadata[order.DataId].OrderId == order.Id && Metadata[order.DataId].CreatedAt == old(Metadata[order.DataId].CreatedAt) && Metadata[order.DataId].Duration == old(Metadata[order.DataId].Duration)
+//@       && Metadata[order.DataId].Alias == old(Metadata[order.DataId].Alias) && Metadata[order.DataId].GroupId == old(Metadata[order.DataId].GroupId)
+//@   ensures [C09.updatemeta.err] err != nil && order.Operation != 2 ==> Metadata[order.DataId] == old(Metadata[order.DataId]) && (has(Metadata, order.DataId) <==> old(has(Metadata, order.DataId)))
+//@   ensures [C09.updatemeta.frame.pledge] order.Operation != 2 ==> forall c string :: Pledge[c] == old(Pledge[c]) && (has(Pledge, c) <==> old(has(Pledge, c)))
+//@   ensures [C09.updatemeta.frame.debt] order.Operation != 2 ==> forall c string :: PledgeDebt[c] == old(PledgeDebt[c]) && (has(PledgeDebt, c) <==> old(has(PledgeDebt, c)))
+//@   ensures [C09.updatemeta.frame.worker] order.Operation != 2 ==> forall c string :: Worker[c] == old(Worker[c]) && (has(Worker, c) <==> old(has(Worker, c)))
+//@   ensures [C09.updatemeta.frame.didbal] order.Operation != 2 ==> forall c string :: DidBalances[c] == old(DidBalances[c]) && (has(DidBalances, c) <==> old(has(DidBalances, c)))
+//@   ensures [C09.updatemeta.frame.order] order.Operation != 2 ==> forall i int :: 0 <= i && i <= MaxUint64 ==> Order[i] == old(Order[i]) && (has(Order, i) <==> old(has(Order, i)))
+//@   ensures [C09.updatemeta.frame.shard] order.Operation != 2 ==> forall i int :: 0 <= i && i <= MaxUint64 ==> Shard[i] == old(Shard[i]) && (has(Shard, i) <==> old(has(Shard, i)))
+//@   ensures [C09.updatemeta.frame.sched] order.Operation != 2 ==> forall h int :: 0 <= h && h <= MaxUint64 ==> ExpiredData[h] == old(ExpiredData[h]) && (has(ExpiredData, h) <==> old(has(ExpiredData, h)))
+//@   ensures [C09.updatemeta.frame.bank] order.Operation != 2 ==> forall a addr, d string :: bal(a, d) == old(bal(a, d))
 //@   loop L1 invariant -1 <= rangeindex && rangeindex < len(metadata.ReadwriteDids)
 //@   loop L1 invariant forall j int :: 0 <= j && j <= rangeindex ==> metadata.ReadwriteDids[j] != order0.Owner
 //@   loop L2 frameexcept metadata
